@@ -2,6 +2,7 @@ package rules
 
 import (
 	"fmt"
+	"go/token"
 	"go/types"
 	"sort"
 	"strings"
@@ -20,12 +21,14 @@ func init() {
 		Explain: "Decides the determinism half ('encodes to the same bytes each time') completely at the level of code shape: every generated protocol type (a type with gogo-proto Marshal/MarshalToSizedBuffer/Size " +
 			"methods in a *.pb.go file) has no map-typed field and no unknown-field store (XXX_unrecognized), and none of its encoding methods contains a range over a map, a goroutine, a select, or a time/rand call - " +
 			"so the emitted bytes are a fixed function of the field values, written in field-number order. GogoProtoMarshalizer.Marshal delegates to exactly that method. " +
+			"BigIntCaster.Unmarshal has no error return behind an upper bound on the input length. " +
 			"Not decided (value-level): decode∘encode equality (custom BigInt caster, nil vs empty slices, default values).",
 		Run: runC45,
 	})
 }
 
 func runC45(c *core.Ctx) {
+	c45DecoderAcceptsWhatTheEncoderEmits(c)
 	encNames := map[string]bool{"Marshal": true, "MarshalTo": true, "MarshalToSizedBuffer": true, "Size": true}
 	typesSeen := map[*types.Named]bool{}
 	var tlist []*types.Named
@@ -157,4 +160,54 @@ func runC45(c *core.Ctx) {
 		}
 		c.Check(ok, "C45/marshalizer-delegates", "GogoProtoMarshalizer.Marshal", fn.Pos(), "returns the object's own generated Marshal()", "GogoProtoMarshalizer.Marshal no longer returns the generated Marshal() of the object")
 	}
+}
+
+// c45DecoderAcceptsWhatTheEncoderEmits: BigIntCaster encodes a value of any width (sign byte plus
+// magnitude). Its decoder refuses only what the encoder never emits - an empty buffer, an invalid
+// sign byte: no error return sits behind an upper bound on the length of the input. A decode-side
+// limit makes values the encoder accepts unreadable.
+func c45DecoderAcceptsWhatTheEncoderEmits(c *core.Ctx) {
+	fn := anchorM(c, "data", "BigIntCaster", "Unmarshal")
+	if fn == nil || len(fn.Params) < 2 {
+		return
+	}
+	buf := ssa.Value(fn.Params[1])
+	isLen := func(v ssa.Value) bool {
+		call, ok := v.(*ssa.Call)
+		if !ok {
+			return false
+		}
+		b, isB := call.Call.Value.(*ssa.Builtin)
+		return isB && b.Name() == "len" && call.Call.Args[0] == buf
+	}
+	n, bad := 0, ""
+	for _, r := range core.Returns(fn) {
+		if core.NilReturn(r, nil) {
+			continue
+		}
+		n++
+		for _, cd := range core.CondsAt(r.Block()) {
+			bo, ok := cd.V.(*ssa.BinOp)
+			if !ok {
+				continue
+			}
+			x, y, op := bo.X, bo.Y, bo.Op
+			if isLen(y) {
+				x, y = y, x
+				op = map[token.Token]token.Token{token.LSS: token.GTR, token.GTR: token.LSS, token.LEQ: token.GEQ, token.GEQ: token.LEQ, token.EQL: token.EQL, token.NEQ: token.NEQ}[op]
+			}
+			k, isC := core.ConstInt(y)
+			if !isLen(x) || !isC {
+				continue
+			}
+			// the error is returned for len(buf) ABOVE some bound
+			upper := (op == token.GTR || op == token.GEQ) && cd.Taken || (op == token.LSS || op == token.LEQ) && !cd.Taken
+			if upper && k >= 2 {
+				bad = fmt.Sprintf("len(buf) above %d at %s", k, c.P.Pos(r.Pos()))
+			}
+		}
+	}
+	c.Check(n >= 1 && bad == "", "C45/decoder-accepts-what-the-encoder-emits", "BigIntCaster.Unmarshal", fn.Pos(),
+		"no error return behind an upper bound on the input length",
+		"BigIntCaster.Unmarshal refuses an input because of its length ("+bad+") while Size/MarshalTo encode values of any width: a structure holding such a value still encodes deterministically but can no longer be decoded")
 }
